@@ -787,6 +787,13 @@ func (en *Env) callExpr(e *ECall) Val {
 			x := en.eval(e.Args[0])
 			y := en.eval(e.Args[1])
 			return boolVal(en.ex.errIs(x, y))
+		case "nonnil":
+			// nonnil(x): pointers are not nil; interfaces hold a non-nil pointer
+			x := en.eval(e.Args[0])
+			if len(x.L) == 2 {
+				return boolVal(and(not(eq(x.L[0], "0")), not(eq(x.L[1], "0"))))
+			}
+			return boolVal(not(eq(x.L[0], "0")))
 		case "aeadkey":
 			// aeadkey(c): base of the key slice the AEAD c was created from
 			x := en.eval(e.Args[0])
